@@ -21,9 +21,9 @@ EXPLANATION = ('Heights are field-level symbols (|h| <= 10^4 nm), NaN patterns a
                'is cut after every number of a 2x3 file: rejected, or read with the missing samples invalid and a warning.')
 BOUNDS = {'quick': 'Zygo: shapes 1x3, 3x1, 2x3, 3x2, 3x3 with 4 NaN patterns; cuts at every sample boundary of a 2x3 file, two mid-sample cuts, one header '
                    'cut. Code V: shapes 1x3, 3x1, 2x3, 3x2, 2x2 with 2 NaN patterns, extreme sample first/last valid cell, a in [1000*2^-52, 10^4] nm '
-                   'symbolic plus two concrete amplitudes below the all-zero threshold, the zero map, two tie maps; cuts after each of the 6 numbers',
-          'thorough': 'Zygo: shapes up to 4x5; cuts at every byte of the data block of a 2x3 file. Code V: shapes up to 3x3, 2x4, 4x2, extreme sample at '
-                      'every valid cell with both signs'}
+                   'symbolic plus two concrete amplitudes below the all-zero threshold, the zero map, two tie maps, two concrete amplitudes of 10^7 and 10^9 nm; cuts after each of the 6 numbers',
+          'thorough': 'Zygo: shapes up to 4x5; cuts at every byte of the data block of a 2x3 file. Code V: shapes up to 3x3, 2x4, 4x2; extreme sample at '
+                      'every valid cell with both signs for maps of up to 6 samples, first/middle/last cell for larger maps'}
 OUTSIDE = ('Code V: the digits of a number (a cut inside a number, which a text format cannot distinguish from a shorter number), comment lines and '
            'titles containing "!", all-NaN maps, symbolic amplitudes above 10^4 nm (two concrete amplitudes of 10^7 and 10^9 nm are included); read_zygo_datx (HDF5), Zygo ASCII, multi-bucket intensity frames')
 NDERIVED = 120
